@@ -15,7 +15,9 @@ RULE = (
     "mask of any kind, a reduction supporting transform (sum, mean, min, max, count, size, first, last, var, std, "
     "median, apply with a scalar function), a key representation (contiguous; chunk-wise with pointer tables, "
     "queried before and after the lazy unification triggered by an earlier transform/reduction on the same object) "
-    "and a values container (NumPy, pandas with default/shuffled/duplicate/string/offset-range index, polars).  Non-trivial = "
+    "and a values container (NumPy, pandas with default/shuffled/duplicate/string/offset-range index, polars).  Sub-check "
+    "`frame`: 1-3 value columns of mixed dtypes handed over as DataFrame / dict of arrays / dict of Series / list / 2-D array / "
+    "polars frame: frame in, frame out, columns in input order, each column the broadcast of that column's own reduction.  Non-trivial = "
     ">= 2 groups interleaved AND (a null-key row OR a group emptied by the mask).  Distinct = case hash."
 )
 ORACLE = ("relation T = op(transform=True) vs R = op(): len(T)==n, index == input index (RangeIndex for NumPy), container "
@@ -138,7 +140,107 @@ def check(case, ctx):
                 raise Violation(f"neutral:{op}", f"row {i} ({'null key' if lab is None else 'group without selected rows'}) got {tvals[i]!r}")
 
 
+# ---------------------------------------------------------------------------
+# several value columns at once: frame in, frame out, every column the transform of that column alone
+FRAME_CONTAINERS = ("df", "dict", "dict_series", "list", "2d", "pl_df")
+
+
+@st.composite
+def frame_strategy(draw, variant):
+    n = draw(st.sampled_from([2, 3, 4, 5, 6, 8, 10, 12, 16]))
+    layout = draw(st.sampled_from(["contiguous", "contiguous", "chunkwise", "chunkwise_after_transform"]))
+    if layout != "contiguous":
+        n = max(n, 4)
+        keys = [draw(S.key_column(n, types=("int", "float", "dt"), shape=draw(st.sampled_from(["random", "blocks", "sorted_prefix"]))))]
+    else:
+        keys = draw(S.keys(n, nkeys=(1, 2)))
+    how = draw(st.sampled_from(FRAME_CONTAINERS))
+    ncols = draw(st.integers(1 if how in ("df", "pl_df", "dict") else 2, 3))
+    dts = ("float64",) if how == "2d" else (("float64", "float32", "int64", "int16", "uint8") if variant == "mixed" else ("float64", "float32"))
+    vals = [dict(draw(S.value_column(n, dtypes=dts, regime="exact")), name=f"c{j}") for j in range(ncols)]
+    op = draw(st.sampled_from([o for o in OPS_T if o != "size"]))
+    mask = draw(S.mask_spec(n, kinds=("none", "bool") if op in ("median", "apply_max") else ("none", "bool", "bool", "slice")))
+    return {"n": n, "keys": keys, "vals": vals, "mask": mask, "op": op, "layout": layout, "how": how,
+            "kw": {"ddof": draw(st.sampled_from([0, 1]))} if op in ("var", "std") else {},
+            "sort": draw(st.sampled_from([True, True, False])),
+            "threshold": draw(st.integers(1, n)), "key_chunks": draw(st.integers(1, 5)),
+            "render": {"vc": "np", "kc": "np", "index": draw(st.sampled_from(["default", "shuffled", "dup", "range5"])), "mc": "np"}}
+
+
+def frame_values(case, arrays, index):
+    how = case["how"]
+    names = [v["name"] for v in case["vals"]]
+    if how == "df":
+        return pd.DataFrame(dict(zip(names, arrays)), index=index), index, names
+    if how == "dict":
+        return dict(zip(names, arrays)), None, names
+    if how == "dict_series":
+        return {nm: pd.Series(a, index=index) for nm, a in zip(names, arrays)}, index, names
+    if how == "list":
+        return list(arrays), None, None
+    if how == "2d":
+        return np.column_stack(arrays), None, None
+    if how == "pl_df":
+        return pl.DataFrame(dict(zip(names, arrays))), None, names
+    raise ValueError(how)
+
+
+def check_frame(case, ctx):
+    n, op = case["n"], case["op"]
+    keys, arrays, mask, index = gbops.render(case)
+    if index is None:
+        index = pd.RangeIndex(n)
+    values, want_index, names = frame_values(case, arrays, index)
+    chunkwise = case["layout"] != "contiguous"
+    shim = gbops.Shims(threshold=case["threshold"], key_chunks=case["key_chunks"]) if chunkwise else gbops.Shims()
+    with shim:
+        gb = gbops.build(case, keys)
+        if case["layout"] == "chunkwise_after_transform":
+            gb.size(transform=True)
+        F = call(gb, case, values, mask, True)
+        singles = [call(gbops.build(case, keys), case, a, mask, False) for a in arrays]
+    labels = gbops.labels_of(case)
+    ctx.seen("frame", case, len(arrays) >= 2 and len({l for l in labels if l is not None}) >= 2,
+             [f"op:{op}", f"how:{case['how']}", f"cols:{len(arrays)}", f"layout:{case['layout']}",
+              "mask:" + (case["mask"]["kind"] if case["mask"] else "none")])
+    if case["how"] == "pl_df":
+        if not isinstance(F, pl.DataFrame):
+            raise Violation(f"frame-container:{op}", f"polars frame in, {type(F).__name__} out")
+        cols = [data.series_values(F[c]) for c in F.columns]
+        got_names = list(F.columns)
+    else:
+        if not isinstance(F, pd.DataFrame):
+            if len(arrays) == 1 and isinstance(F, pd.Series):
+                F = F.to_frame()
+            else:
+                raise Violation(f"frame-container:{op}", f"{case['how']} with {len(arrays)} columns in, {type(F).__name__} out")
+        want = want_index if want_index is not None else pd.RangeIndex(n)
+        if not F.index.equals(want):
+            raise Violation(f"frame-index:{op}", f"transform index {list(F.index)[:8]} != input index {list(want)[:8]}")
+        cols = [data.series_values(F.iloc[:, j]) for j in range(F.shape[1])]
+        got_names = list(F.columns)
+    if len(cols) != len(arrays):
+        raise Violation(f"frame-columns:{op}", f"{len(cols)} columns out for {len(arrays)} in")
+    if names is not None and got_names != names:
+        raise Violation(f"frame-columns:{op}", f"columns {got_names} for inputs {names}")
+    tol = 1e-9 if op in ("sum", "mean", "var", "std", "median") else 0.0
+    for j, (tvals, R, vspec) in enumerate(zip(cols, singles, case["vals"])):
+        vkind = data.val_kind(vspec)
+        if len(tvals) != n:
+            raise Violation(f"frame-length:{op}", f"column {j}: {len(tvals)} rows for {n} input rows")
+        _, rmap = gbops.result_to_dict(R, "R")
+        for i in range(n):
+            lab = labels[i]
+            if lab is not None and lab in rmap:
+                if not ops.same_values([tvals[i]], [rmap[lab]], tol):
+                    raise Violation(f"frame-broadcast:{op}", f"column {j} row {i} label {lab}: transform gives {tvals[i]!r}, reduction of that column alone gives {rmap[lab]!r}")
+            elif not neutral_ok(op, vkind, tvals[i]):
+                raise Violation(f"frame-neutral:{op}", f"column {j} row {i} got {tvals[i]!r}")
+
+
 SUBS = [
+    Sub("frame", check_frame, strategy=lambda tier, v: frame_strategy(v), variants=("mixed", "float"), examples=(2500, 40000),
+        replicas=(3, 6), cost={"mixed": 250, "float": 250}),
     Sub("transform", check, strategy=lambda tier, v: case_strategy(v), variants=tuple(VARIANTS), examples=(6000, 120000),
         replicas=(5, 10), cost={v: 400 for v in VARIANTS}),
 ]
